@@ -3,6 +3,8 @@ CONSTANTS
   RECENT = 3
   NoBlock = NoBlock
   NoTx = NoTx
+  VarBase = 2
+  BeyondHeadStops = FALSE
   MaxNew = 6
   MaxSib = 3
   MaxHeight = 5
